@@ -84,7 +84,7 @@ fn typing_session() -> impl Strategy<Value = Session> {
     prop::collection::vec(intent, 1..50).prop_map(|intents| Session { intents, verify_listing: false })
 }
 
-fn check_session(s: &Session, rec: &mut CaseRec) -> Verdict {
+pub fn check_session(s: &Session, rec: &mut CaseRec) -> Verdict {
     let mut sess = Sess::new();
     let mut seen = HashSet::new();
     let mut kinds: Vec<u8> = vec![];
@@ -293,7 +293,7 @@ pub fn property() -> Property {
         id: "C16",
         rule: "cap-scripts (exhaustive list): GOSUB recursion to depth 1..100, 1..40 nested FOR loops over distinct variables, a FOR pair re-entered by GOTO up to 5000 times, loops abandoned by GOTO/RETURN up to 1000 times, DIM with 0..2^32-1 x {1, 100} cells around the 10000-cell cap, implicit arrays with 1..40 subscripts read and written; the error (OUT OF MEMORY STACK OVERFLOW / ARRAY TOO LARGE) must appear exactly when the stated cap is exceeded and the interpreter must stay usable. typing-sessions: ill-typed writes through LET, cell assignment, FOR variable, NEXT, READ, INPUT replies and parameter binding with $ and non-$ names. structured-/hostile-sessions: C01's generators. Invariant after every host call (snapshot hook): <= 32 frames; <= 32 open loops over pairwise distinct variables, each a FOR variable that occurred in the session; every array's cell count equals the product of its dimensions and is <= 10000; every scalar, array and frame binding has the kind its name's suffix demands. Non-trivial: the session reached depth >= 31, >= 31 open loops, an array of >= 5000 cells or a rejected ill-typed write; distinct by call-kind/outcome sequence.",
         assumptions: vec!["FOR variables of a session are extracted with the tokenizer hook (instrumentation only)"],
-        fuzz: None,
+        fuzz: Some(FuzzSpec { target: "c16_invariants", runs: 150_000, max_len: 2048, verdict: crate::fuzz::c16_verdict }),
         families,
         prelude: None,
         epilogue: None,
